@@ -81,14 +81,17 @@ def gen_content(rng, swords, styles=None, kind=None):
     return body.encode(), kind
 
 
-def add_invalid_utf8(rng, data):
-    """insert invalid bytes only at the END of lines (after the last match) or on their own line, so that the
-    case-aware planner does not hit the C16 panic (invalid bytes before a match on the same line)"""
+def add_invalid_utf8(rng, data, before=0.0):
+    """insert invalid bytes at the END of lines (after the last match), on their own line, or — with probability
+    `before` — at the START of a line, i.e. in front of its matches (the planner used to panic there, C16; since
+    ac203f2 it falls back to searching the lossily decoded line)"""
     bad = [b"\xff", b"\xc3", b"\xe2\x82", b"\xf0\x9f", b"\x80", b"\xc0\xaf"]
     lines = data.split(b"\n")
     for _ in range(rng.randint(1, 2)):
         i = rng.randrange(len(lines))
-        if rng.random() < 0.5:
+        if rng.random() < before:
+            lines[i] = rng.choice(bad) + b" " + lines[i]
+        elif rng.random() < 0.5:
             lines[i] = lines[i] + b" " + rng.choice(bad)
         else:
             lines.insert(i, b"junk " + rng.choice(bad) + b" end")
@@ -111,7 +114,7 @@ def gen_tree(rng, swords, n_files=(1, 4), styles=None, malformed=False, names_wi
         used.add(name)
         data, kind = gen_content(rng, swords, styles)
         if malformed and rng.random() < 0.6 and data:
-            data = add_invalid_utf8(rng, data)
+            data = add_invalid_utf8(rng, data, before=0.35)
         tree[name] = ("f", data, 0o644)
     for name in list(tree):
         parts = name.split("/")[:-1]
